@@ -11,6 +11,10 @@ check 'rt-periodic'  case = {"kind": eventloop|eventloop-eie|newthread|catch-eve
     "sched": see vlib/detrun.py}
 check 'rt-interval'  case = {"kind", "t0", "op": interval|timer, "period", "pform", "d", "dform": "f"|"td"|"dt", "sched_at":
     factory|subscribe, "busy": [ms...] (time spent inside on_next, each < period), "stop": None | ["at", ms, thread], "horizon", "sched"}
+both: optional "pre": None | ["delay", ms] | ["periodic", ms] - OTHER timed work put on the same scheduler by the creating thread at
+    fake time 0 (before the t0 sleep): a zero-duration action due ms after time 0 / a zero-duration periodic action of that period;
+    disposed after the horizon dispose.  The work under test is then scheduled from a program thread (not the loop thread) while
+    that item is pending, typically with an EARLIER first due time than the pending head.
 """
 from __future__ import annotations
 
@@ -49,10 +53,16 @@ RULE = (
     "float/timedelta or absolute datetime in UTC or in a UTC-5 zone, d == p and d != p, d == 0) on the same seven schedulers, scheduler given to the "
     "factory or to subscribe, observer busy for < period inside on_next, subscription disposed at a generated instant or at the "
     "horizon: on_next values are int 0,1,2,... exactly at t0+d+k*p, none at an instant later than a returned dispose, all ticks "
-    "due before the dispose delivered, no terminal event, nothing escapes. Non-trivial (both): >=3 ticks and a dispose or "
+    "due before the dispose delivered, no terminal event, nothing escapes. Both checks, dimension 'pre' (round 8): in about half "
+    "the drawn cases (and in enumerated cases on the event-loop kinds) the creating thread has, at fake time 0, already put OTHER "
+    "timed work on the same scheduler - a zero-duration action due 1..30 ms later or a slower zero-duration periodic action - so "
+    "that the work under test is scheduled from a program thread (not the loop thread) while the shared loop is parked on a "
+    "later deadline, usually with an earlier first due time than the pending head; the oracle is unchanged (zero-duration foreign "
+    "work cannot move e(k)), the foreign work itself is not judged and is disposed after the horizon dispose. Non-trivial (both): >=3 ticks and a dispose or "
     "raise strictly inside the run (before the horizon)."
 )
 ASSUMPTIONS = [
+    "real-time half: the other pending work of dimension 'pre' takes zero fake time, so 'once per period, exactly at e(k)' still binds the work under test; its due time is clamped so that a cancelled leftover drains inside the post-horizon margin",
     "real-time half: periods >= 1 ms; the fake clock moves only when every controlled thread is blocked, so tick instants are exact and 'later instant' is well defined",
     "real-time half: a tick starting at the same fake instant as a concurrent dispose() is not ordered (unlocked check-then-invoke in all three implementations, documented as best effort)",
     "real-time half: interval/timer observers stay busy for less than one period (overrun behaviour of timer(d, p) is not part of the statement)",
@@ -115,8 +125,22 @@ def _stopper_threads(case, ctx, create):
         log(("dret", tag, us()))
 
     ctx["dispose"] = dispose
+    pre = case.get("pre")
+
+    def pre_action(scheduler, state=None):
+        log(("pre", us()))
+
+    def pre_periodic(state):
+        log(("pre", us()))
+        return state
 
     def t0():
+        if pre is not None:  # other timed work already pending on the same scheduler when the work under test is scheduled
+            ms = min(pre[1], case["t0"] + case["horizon"] + _MARGIN_MS - 2)  # a cancelled leftover must drain inside the margin
+            if pre[0] == "delay":
+                ctx["pre_d"] = ctx["sched"].schedule_relative(ms / 1000.0, pre_action)
+            else:
+                ctx["pre_d"] = ctx["sched"].schedule_periodic(min(ms, _MARGIN_MS - 2) / 1000.0, pre_periodic, state=0)
         detrun.sleep(case["t0"] / 1000.0)
         log(("create", us()))
         ctx["d"] = create()
@@ -129,6 +153,8 @@ def _stopper_threads(case, ctx, create):
             left = horizon - stop[1]
         detrun.sleep(left / 1000.0)
         dispose("horizon")
+        if "pre_d" in ctx:
+            ctx["pre_d"].dispose()
 
     def t1():
         created.wait(1.0)
@@ -164,6 +190,19 @@ def _events(res):
     return ev
 
 
+def _pre_classes(case, first_ms):
+    """coverage classes of the 'other work already pending' dimension; first_ms = first due time of the work under test after creation"""
+    pre = case.get("pre")
+    if pre is None:
+        return set()
+    cl = {"pre-pending:" + pre[0]}
+    if pre[1] > case["t0"] + first_ms > case["t0"]:  # due strictly in the future and strictly before the pending head
+        cl.add("scheduled-before-pending-head")
+        if "eventloop" in case["kind"]:
+            cl.add("scheduled-before-pending-head:shared-loop")
+    return cl
+
+
 def _after_dispose(ev, what):
     """An invocation/emission that starts at a LATER fake instant than a returned dispose()."""
     cl = set()
@@ -180,7 +219,7 @@ def _after_dispose(ev, what):
 def _build_periodic(case):
     handled, raised, inv = [], [], []
     sched = _make(case["kind"], case["verdict"], handled)
-    ctx = {"handled": handled, "raised": raised, "inv": inv}
+    ctx = {"handled": handled, "raised": raised, "inv": inv, "sched": sched}
     f, durs, stop, raise_at = _F[case["f"]], case["durs"], case["stop"], case["raise_at"]
     log, us = det.log, detrun.now_us
 
@@ -208,7 +247,7 @@ def _build_periodic(case):
 
 
 def _judge_periodic(case, ctx, res):
-    cl = {case["kind"], "f:" + case["f"]}
+    cl = {case["kind"], "f:" + case["f"]} | _pre_classes(case, case["period"])
     bad = _common_prefix(res)
     if bad:
         return bad, False, cl
@@ -316,7 +355,7 @@ def _build_interval(case):
     CurrentThreadScheduler.singleton()
     handled, inv, terminal = [], [], []
     sched = _make(case["kind"], True, handled)
-    ctx = {"handled": handled, "inv": inv, "terminal": terminal}
+    ctx = {"handled": handled, "inv": inv, "terminal": terminal, "sched": sched}
     busy = case["busy"]
     log, us = det.log, detrun.now_us
 
@@ -355,7 +394,7 @@ def _build_interval(case):
 
 
 def _judge_interval(case, ctx, res):
-    cl = {case["kind"], case["op"]}
+    cl = {case["kind"], case["op"]} | _pre_classes(case, case["period"] if case["op"] == "interval" else case["d"])
     bad = _common_prefix(res)
     if bad:
         return bad, False, cl
@@ -423,6 +462,13 @@ def _stops(p, nper):
     return st.tuples(st.just("at"), at, st.integers(0, 1)).map(list)
 
 
+def _pres(p):
+    """other timed work pending on the same scheduler: a single delayed action (due 1..30 ms after time 0) or a slower periodic"""
+    delay = st.tuples(st.just("delay"), st.integers(1, 30)).map(list)
+    slow = st.tuples(st.just("periodic"), st.sampled_from([p + 1, 2 * p, 2 * p + 1, 3 * p, 10])).map(list)
+    return st.one_of(st.none(), st.none(), delay, delay, slow)
+
+
 def _periodic_cases(sched):
     def build(pn):
         p, nper = pn
@@ -441,6 +487,7 @@ def _periodic_cases(sched):
                 "stop": stop,
                 "raise_at": st.one_of(st.none(), st.none(), st.integers(1, nper), st.integers(3, nper)),
                 "horizon": st.sampled_from([nper * p, nper * p + 1]),
+                "pre": _pres(p),
                 "sched": sched,
             }
         )
@@ -465,6 +512,7 @@ def _interval_cases(sched):
                 "busy": busy,
                 "stop": st.one_of(st.none(), _stops(p, nper), _stops(p, nper)),
                 "horizon": st.sampled_from([nper * p + 7, nper * p + 8]),
+                "pre": _pres(p),
                 "sched": sched,
             }
         )
@@ -486,6 +534,9 @@ def _enum(tier):
             if tier != "quick":
                 stop, horizon = [stop[0], stop[1] - (2 if stop[0] == "at" else 1)] + stop[2:], horizon - 2
             yield {**base, "kind": kind, "stop": stop, "durs": durs, "horizon": horizon}
+        if "eventloop" in kind and (tier == "quick" or kind == "eventloop"):  # scheduled from the creator thread while a later-due item is pending
+            for pre in (["periodic", 5],) if kind.startswith("catch-") else (["delay", 9],):
+                yield {**base, "kind": kind, "t0": 1, "pre": pre, "stop": ["at", 6 if tier == "quick" else 4, 1], "durs": [0], "horizon": 8 if tier == "quick" else 6}
         for verdict in (True, False):
             if kind.startswith("catch-") or verdict:
                 r = 3 if tier == "quick" else 2
@@ -501,6 +552,11 @@ def _enum_interval(tier):
             yield {
                 "kind": kind, "t0": 0, "op": op, "period": 2, "pform": "f", "d": d, "dform": "f", "sched_at": "factory", "busy": [],
                 "stop": ["at", (6 if op == "interval" else 5) - (0 if tier == "quick" else 2), 1], "horizon": 8 if tier == "quick" else 6, "sched": sched,
+            }  # fmt: skip
+        if kind in ("eventloop", "catch-eventloop"):
+            yield {
+                "kind": kind, "t0": 1, "op": "timer", "period": 2, "pform": "f", "d": 1, "dform": "f", "sched_at": "subscribe", "busy": [], "pre": ["delay", 8],
+                "stop": ["at", 5 if tier == "quick" else 3, 0], "horizon": 8 if tier == "quick" else 6, "sched": sched,
             }  # fmt: skip
 
 
